@@ -8,7 +8,7 @@ from util import call, quiet
 
 REQUIRED_THEOREMS = ['Usid.C08.indices_formula', 'Usid.C08.each_combination_once', 'Usid.C08.position_is_transpose',
                      'Usid.C08.written_slowest_first', 'Usid.C08.make_indices_matrix']
-RULE = ('[values handed over as float lists, python ints, int64 / int32 / uint8 / float32 arrays] tuples of dimension sizes (1..4 per dimension, up to 4 dimensions; thorough: ALL such tuples) with non-uniform '
+RULE = ('[also: values not increasing / not distinct; defaults relied upon, tuples, a bare Dimension / int, Dimension(int length), base_name, verbose, a nested parent; thorough: every size tuple (<= 3 dims) under all four flag combinations] [values handed over as float lists, python ints, int64 / int32 / uint8 / float32 arrays] tuples of dimension sizes (1..4 per dimension, up to 4 dimensions; thorough: ALL such tuples) with non-uniform '
         'dyadic values (quarters), labels/units with deliberate repeats, is_spectral in {F,T}, slow_to_fast in {F,T}; '
         'build_ind_val_matrices, make_indices_matrix and write_ind_val_dsets are run for real; non-trivial = at least two '
         'dimensions of size > 1')
@@ -24,6 +24,20 @@ def _case(rng, sizes):
             vals.append(vals[-1] + rng.randint(1, 6))
         dims.append({'name': 'D%d' % d, 'units': rng.choice(['m', 's', 'm']), 'values': vals})
     case = {'dims': dims, 'spec': rng.random() < 0.5, 's2f': rng.random() < 0.5}
+    if rng.random() < 0.25:          # reference values that are not increasing / not distinct
+        d = rng.choice(dims)
+        if len(d['values']) >= 2:
+            if rng.random() < 0.5:
+                d['values'] = rng.sample(d['values'], len(d['values'])) if rng.random() < 0.5 else d['values'][::-1]
+            else:
+                j = rng.randrange(1, len(d['values']))
+                d['values'][j] = d['values'][rng.randrange(0, j)]
+    # how the functions are called: defaults relied upon, tuples instead of lists, a bare Dimension / int for a
+    # single dimension, base_name, verbose, a nested parent group
+    case['form'] = {'defaults': rng.random() < 0.2, 'tuple': rng.random() < 0.25, 'bare': rng.random() < 0.3,
+                    'steps_as': rng.choice(['list', 'list', 'tuple', 'array']),
+                    'base_name': rng.choice([None, None, None, 'Aux', 'Aux_']), 'verbose': rng.random() < 0.15,
+                    'nested': rng.random() < 0.2}
     if rng.random() < 0.4:
         # the builder functions take "array-like" values: hand some dimensions over as integers (python ints,
         # integer / unsigned / float32 arrays) next to dimensions with fractional values
@@ -62,6 +76,11 @@ def generate(seed, tier):
         for k in range(1, 5):
             for sizes in itertools.product(range(1, 5), repeat=k):
                 cases.append(_case(derived_rng(seed, 'C08', i), sizes))
+                if k <= 3:                       # ... under every combination of the two ordering flags
+                    for sp, sf in ((False, False), (False, True), (True, False), (True, True)):
+                        c = _case(derived_rng(seed, 'C08', i), sizes)
+                        c.update(spec=sp, s2f=sf)
+                        cases.append(c)
                 i += 1
         for a in range(5, 130):           # a long fastest dimension under a short slow one: every length once
             cases.append(_case(derived_rng(seed, 'C08', i), [a, 2]))
@@ -97,9 +116,14 @@ def run_impl(inp, work):
     from pyUSID.io.hdf_utils import write_ind_val_dsets
     from pyUSID.io.dimension import Dimension
     dims = inp['dims']
+    form = inp.get('form', {})
     uv = [_container(d) for d in dims]
+    if form.get('tuple'):
+        uv = tuple(uv)
     out = {}
-    r = call(build_ind_val_matrices, uv, is_spectral=True)
+    # (defaults: is_spectral=True for the builder, is_position=True for make_indices_matrix,
+    #  is_spectral=True / slow_to_fast=False for the writer)
+    r = call(build_ind_val_matrices, uv) if form.get('defaults') else call(build_ind_val_matrices, uv, is_spectral=True)
     rp = call(build_ind_val_matrices, uv, is_spectral=False)
     if r[0] == 'ok' and rp[0] == 'ok':
         out['build'] = {'ind': r[1][0].tolist(), 'val': _q(r[1][1]), 'ind_dtype': str(r[1][0].dtype),
@@ -108,13 +132,35 @@ def run_impl(inp, work):
     else:
         out['build'] = {'err': r[1] if r[0] == 'err' else rp[1]}
     steps = [len(d['values']) for d in dims]
-    r = call(make_indices_matrix, steps, is_position=False)
-    rp = call(make_indices_matrix, steps, is_position=True)
+    steps_arg = {'list': list, 'tuple': tuple, 'array': np.array}[form.get('steps_as', 'list')](steps)
+    if form.get('bare') and len(steps) == 1:
+        steps_arg = steps[0]
+    r = call(make_indices_matrix, steps_arg, is_position=False)
+    rp = call(make_indices_matrix, steps_arg) if form.get('defaults') else call(make_indices_matrix, steps_arg, is_position=True)
     out['make'] = {'ok': r[1].tolist(), 'dtype': str(r[1].dtype),
                    'pos_is_transpose': rp[0] == 'ok' and bool(np.array_equal(rp[1], r[1].T))} if r[0] == 'ok' else {'err': r[1]}
     with h5py.File(os.path.join(work, 'a.h5'), 'w') as f:
-        dobjs = [Dimension(d['name'], d['units'], [v / 4.0 for v in d['values']]) for d in dims]
-        r = call(write_ind_val_dsets, f, dobjs, is_spectral=inp['spec'], slow_to_fast=inp['s2f'])
+        def dim_of(d):
+            vals = [v / 4.0 for v in d['values']]
+            if vals == [float(i) for i in range(len(vals))] and d.get('as') in ('int-list', 'int64'):
+                return Dimension(d['name'], d['units'], len(vals))          # the length stands for arange(length)
+            return Dimension(d['name'], d['units'], _container(d))
+        dobjs = [dim_of(d) for d in dims]
+        if form.get('tuple'):
+            dobjs = tuple(dobjs)
+        if form.get('bare') and len(dims) == 1:
+            dobjs = dobjs[0]
+        parent = f.create_group('a').create_group('b') if form.get('nested') else f
+        kw = {}
+        if form.get('base_name'):
+            kw['base_name'] = form['base_name']
+        if form.get('verbose'):
+            kw['verbose'] = True
+        with quiet():
+            if form.get('defaults') and inp['spec'] and not inp['s2f']:
+                r = call(write_ind_val_dsets, parent, dobjs, **kw)
+            else:
+                r = call(write_ind_val_dsets, parent, dobjs, is_spectral=inp['spec'], slow_to_fast=inp['s2f'], **kw)
         if r[0] == 'ok':
             hi, hv = r[1]
             ind, val = hi[()], hv[()]
@@ -180,6 +226,8 @@ def oracle(inp, obs):
         if w['ind_dtype'] != 'uint32' or w['val_dtype'] != 'float32':
             fails.append('write-dtypes: %s / %s' % (w['ind_dtype'], w['val_dtype']))
         base = 'Spectroscopic' if inp['spec'] else 'Position'
+        if inp.get('form', {}).get('base_name'):
+            base = inp['form']['base_name'].rstrip('_')
         if w['names'] != [base + '_Indices', base + '_Values']:
             fails.append('write-names: datasets named %s' % w['names'])
     return fails
